@@ -149,30 +149,48 @@ def ExpireFullStatement : Prop :=
     checkTxExpire (ETx.expired txHeightOn height blocktime) segs.flatten
       = some ((segs.filter (fun s => !s.any (trulyExpired txHeightOn height blocktime))).flatten)
 
-/-- witness: a group of two with `Expire = 5` at height 10 whose `Header` (the group hash) decodes
-as an empty `Transactions` message. -/
+/-- witness (repaired code): a group of two with `Expire = 5` at height 10 whose `Header` (the group
+hash, e.g. `0a1e7936…`) decodes as a `Transactions` message holding one garbage transaction with
+`Expire = 0`. About 1 in 6.5 million hashes do; `h_c30` rebuilds such a group from a ground nonce. -/
 def expireWitness : List (List ETx) :=
-  [[⟨1, 2, 5, some []⟩, ⟨2, 2, 5, some []⟩]]
+  [[⟨1, 2, 5, some [0]⟩, ⟨2, 2, 5, some [0]⟩]]
 
-/-- The full statement is **false of the model and of the code** (replayed on the implementation by
-`h_c30`'s witness section; known finding
-`C30|CheckTxExpire|expired-group-kept-when-group-hash-parses-as-protobuf`). -/
+theorem expireWitness_wf : ∀ s ∈ expireWitness, WellFormedSeg s := by
+  intro s hs
+  simp [expireWitness] at hs; subst hs
+  right; simp
+
+/-- The full statement is **still false of the model and of the repaired code** (replayed on the
+implementation by `h_c30`'s witness section; known finding
+`C30|CheckTxExpire|expired-group-kept-when-group-hash-parses-as-nonempty-group`). -/
 theorem expire_removes_whole_groups_full_false : ¬ ExpireFullStatement := by
   intro h
-  have wf : ∀ s ∈ expireWitness, WellFormedSeg s := by
-    intro s hs
-    simp [expireWitness] at hs; subst hs
-    right; simp
-  have := h false 10 1600000000 expireWitness wf
-  rw [expire_removes_whole_groups _ _ wf] at this
+  have := h false 10 1600000000 expireWitness expireWitness_wf
+  rw [expire_removes_whole_groups _ _ expireWitness_wf] at this
   revert this
   decide
 
-/-- What does hold: when no member's `Header` decodes as a group (`hdr = none`, the case for all but
-about 1 in 500 group hashes) the full statement holds. -/
+/-- regression statement for the repair c2f0f61: a group whose hash decodes as an *empty* message
+(about 1 in 500 hashes) was kept by the old `IsExpire` and is removed as a whole by the repaired one. -/
+theorem expire_empty_header_regression :
+    let w : List (List ETx) := [[⟨1, 2, 5, some []⟩, ⟨2, 2, 5, some []⟩]]
+    checkTxExpire (fun t => decide ((10 : Int) > 0) && decide ((1600000000 : Int) > 0) &&
+        t.isExpireOld false 10 1600000000) w.flatten = some w.flatten ∧
+    checkTxExpire (ETx.expired false 10 1600000000) w.flatten = some [] := by
+  intro w
+  have wf : ∀ s ∈ w, WellFormedSeg s := by
+    intro s hs
+    simp [w] at hs; subst hs
+    right; simp
+  rw [expire_removes_whole_groups _ _ wf, expire_removes_whole_groups _ _ wf]
+  decide
+
+/-- What does hold: when no member's `Header` decodes as a group **with at least one transaction**
+(`hdr = none` or `hdr = some []`; all but about 1 in 6.5 million group hashes) the full statement
+holds. -/
 theorem expire_removes_whole_groups_partial (txHeightOn : Bool) (height blocktime : Int)
     (segs : List (List ETx)) (h : ∀ s ∈ segs, WellFormedSeg s)
-    (hdr : ∀ s ∈ segs, ∀ t ∈ s, t.hdr = none) :
+    (hdr : ∀ s ∈ segs, ∀ t ∈ s, t.hdr = none ∨ t.hdr = some []) :
     checkTxExpire (ETx.expired txHeightOn height blocktime) segs.flatten
       = some ((segs.filter (fun s => !s.any (trulyExpired txHeightOn height blocktime))).flatten) := by
   rw [checkTxExpire_segs _ _ h]
@@ -182,7 +200,16 @@ theorem expire_removes_whole_groups_partial (txHeightOn : Bool) (height blocktim
   congr 1
   apply any_congr_mem
   intro t ht
-  simp [ETx.expired, ETx.isExpire, trulyExpired, hdr s hs t ht]
+  rcases hdr s hs t ht with h0 | h0 <;> simp [ETx.expired, ETx.isExpire, trulyExpired, h0]
+
+/-- non-vacuity of the weakened hypothesis: a segment whose members carry an empty decoded header -/
+example : ∀ s ∈ ([[⟨1, 2, 5, some []⟩, ⟨2, 2, 5, some []⟩], [⟨3, 0, 0, none⟩]] : List (List ETx)),
+    ∀ t ∈ s, t.hdr = none ∨ t.hdr = some [] := by
+  intro s hs t ht
+  simp at hs
+  rcases hs with rfl | rfl <;> simp at ht
+  · rcases ht with rfl | rfl <;> simp
+  · subst ht; simp
 
 example : ∀ s ∈ ([[⟨1, 0, 5, none⟩], [⟨2, 2, 0, none⟩, ⟨3, 2, 5, none⟩], [⟨4, 0, 0, none⟩]] : List (List ETx)),
     WellFormedSeg s := by
